@@ -61,3 +61,29 @@ func (fg *FnGen) load(fr *Frame, p ssa.Value, st *State, reach *Term, pos token.
 	}
 	return v
 }
+
+// collectWitnesses: candidate witnesses for integer existentials = the range indices (and their successors) of the
+// loops of the function under verification that have been reached so far.
+func (fg *FnGen) collectWitnesses() {
+	if fg.top == nil || fg.fn == nil {
+		return
+	}
+	seen := map[string]bool{}
+	for _, w := range fg.witnesses {
+		seen[w.Key()] = true
+	}
+	for _, b := range fg.fn.Blocks {
+		for _, ins := range b.Instrs {
+			if phi, ok := ins.(*ssa.Phi); ok && phi.Comment == "rangeindex" {
+				if t, ok := fg.top.vals[phi]; ok {
+					for _, w := range []*Term{t, Add(t, IntLit(1))} {
+						if !seen[w.Key()] {
+							seen[w.Key()] = true
+							fg.witnesses = append(fg.witnesses, w)
+						}
+					}
+				}
+			}
+		}
+	}
+}
